@@ -65,7 +65,7 @@ package main
 //@   at call (*engine.Change).Replace set changelogsUsed = changelogsUsed + 1
 //@   at call (*astdiff.Snapshot).Diff assert [C17] the-snapshot-is-advanced-with-the-regions-of-this-change: unbox(arg2, "S_engine_Changelog") == lastChangelog
 //@   at call main.cleanupFilePos assert [C17] only-the-regions-of-this-change-are-cleaned-up: arg1 == lastChangelog
-//@   assigns r.errors, elems(r.errors), group(ast), matchCount, replFail, sitesReplaced, restructured, inspections, importFailures, lastChangelog, changelogsMade, changelogsUsed, allof("F.S_astdiff_value.Comments")
+//@   assigns r.errors, elems(r.errors), group(ast), matchCount, replFail, sitesReplaced, restructured, inspections, importFailures, importsDeleted, lastChangelog, changelogsMade, changelogsUsed, allof("F.S_astdiff_value.Comments")
 //@   ensures [C16] recorded-errors-are-errors: forall i int {r.errors[i]} :: 0 <= i && i < len(r.errors) ==> r.errors[i] != nil
 //@   ensures [C06,C08,C09] matched-has-file: matched ==> fout != nil
 //@   ensures [C06] matched-only-after-match: matched ==> matchCount > old(matchCount)
@@ -260,6 +260,7 @@ package main
 //@   at call parse.Parse assert [C19] parsed-under-the-name-given: arg0 == fset && arg1 == name && arg2 == src
 //@   at call engine.Compile assert [C12] compiled-into-the-same-file-set: arg0 == fset && arg1 == ret("parse.Parse", 0, 0)
 //@   ensures [C16,C19] a-patch-that-does-not-parse-is-rejected: ret("parse.Parse", 0, 1) != nil ==> err != nil && prog == nil
+//@   ensures [C16,C19] a-patch-that-does-not-compile-is-rejected: ret("engine.Compile", 0, 1) != nil ==> err != nil && prog == nil
 //@   ensures [C09] err == nil ==> wfProg(prog)
 
 //@ func funcval:github.com/uber-go/gopatch.patchLoader.parseAndCompile(fset, name, src) (prog, err)
